@@ -39,6 +39,7 @@ type verifC09_cas struct {
 	failures  int // failures of output uploads (up to and including the final flush)
 	late      int // failures of the historical-response upload afterwards
 	flushDone bool
+	cancel    func() // cancels the context the action runs under
 }
 
 func (c *verifC09_cas) failed() {
@@ -71,6 +72,10 @@ func (c *verifC09_cas) Put(ctx context.Context, d digest.Digest, b buffer.Buffer
 		b.Discard()
 		if rt.NondetBool("the write was cancelled (else failed)") {
 			rt.Cover("cas:put-cancelled")
+			if c.cancel != nil && rt.NondetBool("because the worker's own context was cancelled") {
+				c.cancel()
+				rt.Cover("cas:caller-cancelled")
+			}
 			return status.Error(codes.Canceled, "write cancelled")
 		}
 		return status.Error(codes.Internal, "write failed")
@@ -139,9 +144,9 @@ func (e *verifC09_base) Execute(ctx context.Context, filePool pool.FilePool, mon
 }
 
 func verifHarness_C09_CachingPipeline() {
-	rt.MustCover("ac:cached", "ac:not-cached-do-not-cache", "ac:not-cached-failure", "flush:failed", "flush:ok", "batch:duplicate", "batch:intermediate-flush")
-	ctx := context.Background()
-	cas := &verifC09_cas{present: map[string]bool{}}
+	rt.MustCover("ac:cached", "ac:not-cached-do-not-cache", "ac:not-cached-failure", "flush:failed", "flush:ok", "batch:duplicate", "batch:intermediate-flush", "cas:caller-cancelled")
+	ctx, cancel := context.WithCancel(context.Background())
+	cas := &verifC09_cas{present: map[string]bool{}, cancel: cancel}
 	for _, h := range verifC09_hashes {
 		if rt.NondetBool("blob already in the CAS") {
 			cas.present[h] = true
